@@ -14,7 +14,7 @@ DRIVABLE_KEX = ['diffie-hellman-group1-sha1', 'diffie-hellman-group14-sha1', 'di
                 'diffie-hellman-group-exchange-sha1', 'diffie-hellman-group-exchange-sha256', 'ecdh-sha2-nistp256', 'ecdh-sha2-nistp384',
                 'ecdh-sha2-nistp521']
 GEX = ['diffie-hellman-group-exchange-sha1', 'diffie-hellman-group-exchange-sha256']
-INVARIANTS = ['ExitDocumented', 'ReportIffHandshake', 'BoundedWaiting', 'FootprintBounded', 'KexReqDiscipline', 'AllClosedAtExit',
+INVARIANTS = ['ExitDocumented', 'ReportIffHandshake', 'BoundedWaiting', 'FootprintBounded', 'KexReqDiscipline', 'AllClosedAtExit', 'FallbackDiscipline',
               'ProbesOnlyAfterHandshake', 'GexReportRule', 'NoSizeWhenRefused', 'GexRequestsFixed', 'RsaFanOut']
 
 
@@ -25,12 +25,16 @@ def mc_cfg(servers, faults, cap=38, conc=3, ticks=15, mode='attempts', emit=Fals
     if emit:
         c += 'INVARIANT EmitGex\n'
     if live:
-        c += 'PROPERTY Terminates\n'
+        c += 'PROPERTY Terminates\nPROPERTY OnlyDowngrade\n'
     return c
 
 
-def srv_of(cfg, skip_rate, dheat_tables):
-    """Server archetype (SshAudit!srv) of a fake server configuration."""
+def srv_of(cfg, skip_rate, dheat_tables, argv=(), role='server'):
+    """Server archetype (SshAudit!srv) of a fake peer configuration and the command line it is audited with."""
+    one = any(a in ('-1', '--ssh1', '-12', '-21') for a in argv)
+    two = any(a in ('-2', '--ssh2', '-12', '-21') for a in argv)
+    tryv = '12' if one == two else ('1' if one else '2')
+    proto = 'none' if cfg.get('wrong_version_always') else ('1' if cfg.get('ssh1') is not None else '2')
     k = peers.full_lists(cfg.get('kexinit', peers.DEFAULT_KEXINIT))
     kex = [x.decode('latin-1') for x in k['kex']]
     key = [x.decode('latin-1') for x in k['key']]
@@ -47,6 +51,7 @@ def srv_of(cfg, skip_rate, dheat_tables):
         'style': gex.get('style', 'strict'),
         'openssh': 'OpenSSH' in (cfg.get('banner') or b'').decode('latin-1'),
         'skipRate': bool(skip_rate),
+        'role': role, 'proto': proto, 'try': tryv, 'cliTimeout': '-t' in argv or any(a.startswith('--timeout') for a in argv),
     }
 
 
@@ -79,23 +84,36 @@ def trace_events(res):
     nb = {}
     evs = []
     sawbanner = set()
+    lasttext = {}
     for e in res['events']:
         k = e.get('ev')
+        if k == 'listen':
+            evs.append({'e': 'listen'})
+            continue
+        if k == 'unlisten':
+            evs.append({'e': 'unlisten'})
+            continue
+        if k == 'accept':
+            nb[e['n']] = False
+            evs.append({'e': 'connect', 'ok': True, 'nb': False, 'accepted': True})
+            continue
         if k == 'resolve' and not e.get('ok') and e.get('port') != 0:
-            evs.append({'e': 'connect', 'ok': False, 'nb': False})      # the attempt to reach the target failed at name resolution
+            evs.append({'e': 'connect', 'ok': False, 'nb': False, 'accepted': False})      # the attempt to reach the target failed at name resolution
         elif k == 'connect':
             nb[e['n']] = bool(e.get('nb'))
-            evs.append({'e': 'connect', 'ok': bool(e['ok']), 'nb': bool(e.get('nb'))})
+            evs.append({'e': 'connect', 'ok': bool(e['ok']), 'nb': bool(e.get('nb')), 'accepted': False})
         elif k == 'read':
             n = e['n']
             if e.get('got') == 'data' and bytes.fromhex(e.get('head', '')).startswith(b'SSH-'):
                 sawbanner.add(n)
             if nb.get(n):
                 continue
+            if e.get('got') == 'data':
+                lasttext[n] = bytes.fromhex(e.get('head', ''))
             if e.get('got') in ('eof', 'reset'):
-                evs.append({'e': 'readfail', 'kind': 'eof'})
+                evs.append({'e': 'readfail', 'kind': 'eof', 'mismatch': lasttext.get(n, b'').startswith(b'Protocol')})
             elif e.get('got') == 'timeout':
-                evs.append({'e': 'readfail', 'kind': 'timeout'})
+                evs.append({'e': 'readfail', 'kind': 'timeout', 'mismatch': False})
             elif e.get('tainted') and not (evs and evs[-1].get('e') == 'garbled'):
                 evs.append({'e': 'garbled'})
         elif k == 'send':
